@@ -345,7 +345,7 @@ def main():
     codec = read_catches(dm["UnicodeDammit._codec"], "UnicodeDammit._codec")
     digits = sys.get_int_max_str_digits() if hasattr(sys, "get_int_max_str_digits") else 0
 
-    o = ["(* GENERATED by translator/gen_c06.py from %s — do not edit *)" % REPO,
+    o = ["(* GENERATED by translator/gen_c06.py from the library working tree - do not edit *)",
          "From Coq Require Import List NArith ZArith.",
          "From BS Require Import Base.Sexp Base.Types.",
          "Import ListNotations.",
